@@ -58,6 +58,14 @@ fn gen_sig(rng: &mut Rng) -> (Sig, ParameterList) {
     }
 }
 
+/// An interrupt service routine that uses JMP R7 / RET as an indirect jump inside the handler (R7 saved around it): by the
+/// property's counting rule that is a return, executed while the interrupt's own frame is the innermost one.
+fn ret_isr(rng: &mut Rng, origin: u16) -> String {
+    let j = if rng.bool() { "RET" } else { "JMP R7" };
+    let work = if rng.bool() { "ADD R7, R7, #0\n" } else { "" };
+    format!(".orig x{origin:04X}\nADD R6, R6, #-1\nSTR R7, R6, #0\nLEA R7, ISRL\n{j}\nISRL {work}LDR R7, R6, #0\nADD R6, R6, #1\nRTI\n.end\n")
+}
+
 fn check_frames(p: &Pair) -> Option<(String, String)> {
     if p.sim.frame_stack.len() != p.r.frame_no { return Some(("depth".into(), format!("len() = {}, reference {}", p.sim.frame_stack.len(), p.r.frame_no))); }
     match (p.sim.frame_stack.frames(), p.r.debug_frames) {
@@ -82,20 +90,22 @@ fn check_frames(p: &Pair) -> Option<(String, String)> {
 fn run27(ctx: &mut Ctx) {
     let n = ctx.tier.pick(2_500, 250_000);
     ctx.cases(0, n, |ctx, rng, idx| {
-        let real = idx & 1 == 1; let dbg = idx % 4 != 3; let structured = idx % 8 < 6;
+        // independent bits of the case index (every combination of real traps, debug frames and program style occurs)
+        let real = idx & 1 == 1; let dbg = (idx >> 1) % 4 != 3; let structured = (idx >> 3) % 4 != 3;
         let kbd: Vec<u8> = (0..8).map(|_| 1 + rng.below(255) as u8).collect();
         let mut p = Pair::new(real, false, dbg, rng.u16(), Some(&kbd), true);
         let mut desc = Json::obj().set("real_traps", real).set("debug_frames", dbg);
         let mut irq_vecs: Vec<u8> = vec![];
         if structured {
-            let opts = ProgOpts { unbalanced: rng.chance(1, 2), faults: false, ..ProgOpts::default() };
+            // under real traps a fifth of the programs end in an exception (its entry is a frame of its own)
+            let opts = ProgOpts { unbalanced: rng.chance(1, 2), faults: real && rng.chance(1, 5), ..ProgOpts::default() };
             let prog = gen_user_prog(rng, &opts);
             let Ok(labels) = p.load_text(&prog.text) else { ctx.count("not-assembled"); return };
             desc.put("program", prog.text.as_str());
             let mut sigs = vec![];
             for sname in &prog.subs { if rng.chance(2, 3) { let a = labels[sname]; let (s, pl) = gen_sig(rng); sigs.push(format!("{sname}@x{a:04X}: {pl:?}")); p.sim.frame_stack.set_subroutine_def(a, pl); p.r.sr_sigs.insert(a, s); } }
             // interrupt service routines with signatures on their vectors
-            for i in 0..rng.usize(3) { let v = 0x30 + 0x11 * i as u8 + rng.below(8) as u8; let isr = gen_isr(rng, 0x1000 + 0x80 * i as u16, false); if p.load_text(&isr).is_ok() { p.set_mem(0x100 + v as u16, 0x1000 + 0x80 * i as u16); irq_vecs.push(v); if rng.chance(2, 3) { let (s, pl) = gen_sig(rng); sigs.push(format!("interrupt x{v:02X}: {pl:?}")); p.sim.frame_stack.set_subroutine_def(0x100 + v as u16, pl); p.r.sr_sigs.insert(0x100 + v as u16, s); } } }
+            for i in 0..rng.usize(3) { let v = 0x30 + 0x11 * i as u8 + rng.below(8) as u8; let isr = if rng.chance(1, 3) { ret_isr(rng, 0x1000 + 0x80 * i as u16) } else { gen_isr(rng, 0x1000 + 0x80 * i as u16, false) }; if p.load_text(&isr).is_ok() { p.set_mem(0x100 + v as u16, 0x1000 + 0x80 * i as u16); irq_vecs.push(v); if rng.chance(2, 3) { let (s, pl) = gen_sig(rng); sigs.push(format!("interrupt x{v:02X}: {pl:?}")); p.sim.frame_stack.set_subroutine_def(0x100 + v as u16, pl); p.r.sr_sigs.insert(0x100 + v as u16, s); } } }
             desc.put("signatures", Json::Arr(sigs.iter().map(|s| Json::from(s.as_str())).collect()));
         } else {
             let d = super::c08::random_state(rng, &mut p);
@@ -104,6 +114,9 @@ fn run27(ctx: &mut Ctx) {
             irq_vecs = vec![0x40, 0x41];
             for v in &irq_vecs { if rng.bool() { let (s, pl) = gen_sig(rng); p.sim.frame_stack.set_subroutine_def(0x100 + *v as u16, pl); p.r.sr_sigs.insert(0x100 + *v as u16, s); } }
         }
+        // signatures registered under the exception vectors x100-x102 as if they were interrupt vectors x00-x02: an exception entry
+        // is a trap-kind frame (no signature), so they must not show up as its arguments
+        if rng.bool() { for v in 0u16..3 { let (s, pl) = gen_sig(rng); p.sim.frame_stack.set_subroutine_def(0x100 + v, pl); p.r.sr_sigs.insert(0x100 + v, s); } desc.put("signatures_on_exception_vectors", true); }
         let mut trace: Vec<String> = vec![];
         let mut maxdepth = 0;
         let cap = if structured { 5000 } else { 64 };
@@ -111,6 +124,7 @@ fn run27(ctx: &mut Ctx) {
             let cls = p.r.class_at_pc();
             let pend = if !irq_vecs.is_empty() && rng.chance(1, if structured { 60 } else { 10 }) { Some((*rng.pick(&irq_vecs), 1 + rng.below(7) as u8)) } else { None };
             let pc0 = p.r.pc;
+            let top_before = p.r.frames.last().map(|f| f.ftype);
             let Ok((got, exp)) = crate::monitor::guard(|| p.step(pend)) else { return };
             ctx.eval();
             let kind = p.r.last_kind;
@@ -120,6 +134,8 @@ fn run27(ctx: &mut Ctx) {
             if p.compare(&got, exp, false).is_some() { ctx.count("diverged-from-reference (reported by C08)"); return; }
             maxdepth = maxdepth.max(p.r.frame_no);
             if got.is_ok() {
+                if dbg && kind == StepKind::ExceptionEntry { ctx.count("pushed.exception.debug-frames-on"); }
+                if dbg && kind == StepKind::Instr && p.r.mem[pc0 as usize] == 0xC1C0 && matches!(top_before, Some(FType::Trap) | Some(FType::Interrupt)) { ctx.count("popped.ret-on-handler-frame"); }
                 match (kind, cls) { (StepKind::InterruptEntry, _) => ctx.count("pushed.interrupt"), (StepKind::TrapEntry, _) if exp == Outcome::Ok => ctx.count("pushed.trap"), (StepKind::ExceptionEntry, _) => ctx.count("pushed.exception"), (_, "JSR") | (_, "JSRR") => ctx.count("pushed.subroutine"), (_, "RTI") => ctx.count("popped.rti"), (_, "JMP") if p.r.mem[pc0 as usize] == 0xC1C0 => ctx.count(if p.r.frame_no == 0 && maxdepth == 0 { "popped.ret-at-depth-0" } else { "popped.ret" }), _ => {} }
                 if let Some(f) = p.r.frames.last() { if matches!(kind, StepKind::InterruptEntry | StepKind::TrapEntry) || cls == "JSR" || cls == "JSRR" { if f.frame_ptr.is_some() { ctx.count("signature.calling-convention"); } else if !f.args.is_empty() { ctx.count("signature.pass-by-register"); } } }
             }
@@ -133,7 +149,7 @@ fn run27(ctx: &mut Ctx) {
 }
 fn guard27(m: &Merged, _t: Tier) -> Vec<String> {
     let mut out = vec![];
-    for k in ["pushed.interrupt", "pushed.trap", "pushed.subroutine", "pushed.exception", "popped.rti", "popped.ret", "popped.ret-at-depth-0", "signature.calling-convention", "signature.pass-by-register", "episodes.nested", "episodes.debug-frames-on", "episodes.debug-frames-off"] { need(m, &mut out, k, 10); }
+    for k in ["pushed.interrupt", "pushed.trap", "pushed.subroutine", "pushed.exception", "pushed.exception.debug-frames-on", "popped.ret-on-handler-frame", "popped.rti", "popped.ret", "popped.ret-at-depth-0", "signature.calling-convention", "signature.pass-by-register", "episodes.nested", "episodes.debug-frames-on", "episodes.debug-frames-off"] { need(m, &mut out, k, 10); }
     out
 }
 
